@@ -311,6 +311,18 @@ def rule_counts(ck):
     ck.clause('shared C03-D2 (accumulation of gridded counts)')
     c03.rule_accumulation(ck)
     c03.rule_mag_sentinel(ck)
+    # the observed counts are those of the catalog's current events, region and bins (no memo that outlives a filter)
+    ck.clause('shared C03-D6 (gridded counts are recomputed from the current events)')
+    c03.rule_pure_gridding(ck)
+
+
+def rule_rates_view(ck):
+    """the rates every statistic reads are forecast.data = a fresh array `_data * _scale`, its marginals sums of that view (shared
+    C11-D1 scaling and C11-D4 axes): a caller that edits what it was handed cannot change the forecast"""
+    from . import c11
+    ck.clause('shared C11-D1/D4 (the scaled view and its marginals)')
+    c11.rule_scaling(ck)
+    c11.rule_axes(ck)
 
 
 def rule_simulated_catalogs(ck):
@@ -348,4 +360,15 @@ def rule_own_magnitudes_shared(ck):
     c11.rule_own_magnitudes(ck)
 
 
-RULES = [rule_kernel, rule_callsites, rule_normalisation, rule_public, rule_counts, rule_simulated_catalogs, rule_flatten_order, rule_own_magnitudes_shared]
+def rule_precision(ck):
+    """D5.double: the rates the statistic is defined on are the rates that were supplied: neither the forecast container nor the test
+    kernels convert them to a narrower numeric type"""
+    from .common import rule_double_precision
+    ck.clause('D5')
+    rule_double_precision(ck, 'C05-D5.double',
+                          modules=('csep.core.poisson_evaluations', 'csep.utils.stats', 'csep.core.forecasts'),
+                          what='forecast rates and observed counts')
+
+
+RULES = [rule_kernel, rule_callsites, rule_normalisation, rule_public, rule_counts, rule_simulated_catalogs, rule_flatten_order, rule_own_magnitudes_shared,
+         rule_precision, rule_rates_view]
